@@ -118,8 +118,10 @@ class _State:
         # make durations tunable
         if self.duration is not None:
             duration_attr = name + "_duration"
-            # don't create it twice (in case of inheritance overriding)
-            if getattr(owner, duration_attr, None) is None:
+            # an explicit <name>_duration defined in this class wins; one that is
+            # only inherited (created for the overridden state of a base class)
+            # is replaced, so that the duration defaults to this decorator
+            if owner.__dict__.get(duration_attr) is None:
                 setattr(
                     owner,
                     duration_attr,
